@@ -56,12 +56,34 @@ def exc_of(value):
     return type(exc).__name__, getattr(exc, 'args', ()), exc, einfo
 
 
+def _poll_syn_queue_class():
+    from billiard.queues import SimpleQueue
+    from billiard.reduction import ForkingPickler
+
+    class PollSynQueue(SimpleQueue):
+        """A syn queue that is polled with a timeout (no get_payload): the worker then waits for the parent's
+        answer in one-second polls, as it does with the queue types of other pool subclasses."""
+        get_payload = None
+
+        def get(self):
+            with self._rlock:
+                return ForkingPickler.loads(self._reader.recv_bytes())
+    return PollSynQueue
+
+
+PollSynQueue = _poll_syn_queue_class()
+PollSynQueue.__qualname__ = 'PollSynQueue'      # picklable by reference (children unpickle their queues)
+
+
 def make_synack_pool(P, W):
     """What Celery's pool subclass provides: a per-worker syn queue and a send_ack that answers on it."""
 
     class SynackPool(P.Pool):
         def get_process_queues(self):
-            self._last_synq = self._ctx.SimpleQueue()
+            if W.case.get('synq_poll'):
+                self._last_synq = PollSynQueue(ctx=self._ctx)
+            else:
+                self._last_synq = self._ctx.SimpleQueue()
             return self._inqueue, self._outqueue, self._last_synq
 
         def _process_register_queues(self, worker, queues):
@@ -75,6 +97,12 @@ def make_synack_pool(P, W):
             k = state.K
             q = self._synqs.get(fd)
             if q is not None:
+                d = W.case.get('syn_delay')
+                if d and W.syn_sent == d[0]:
+                    # a parent that is busy elsewhere: this one answer goes out late (the worker polls for it)
+                    k.fault_fired('late_syn_answer')
+                    k.sleep(d[1])
+                W.syn_sent += 1
                 k.record('syn', pid, job, response)
                 if response == NACK:
                     k.probe('nack_sent')
@@ -99,6 +127,7 @@ class World:
         self.wire_out = {}         # pid -> bytearray (partial) for the result pipe
         self.msgs_out = {}         # pid -> [(step, time, kind, args)]
         self.dups = 0
+        self.syn_sent = 0
         self.in_pass = False
         self.created_in_pass = 0
         self.flags = {}            # named internal instants seen so far ('hard-intent:<jobid>' -> step), for triggers
